@@ -14,7 +14,6 @@
  *      -> "rc=<0|1> <rows> <cols> | target, row major, over the padded extent lmt*mb x lnt*nb"
  *  gs index start end mb size dis          -> getsize(...)
  *  nc R PY kqY PT kqT sc                   -> redistribute_pair_num_cols of two block-cyclic descriptors
- *  st mb nb sr sc di dj                    -> redistribute_region_is_stored (block cyclic: always 1)
  */
 #include "parsec/parsec_config.h"
 #include "parsec.h"
@@ -113,11 +112,6 @@ int main(int argc, char **argv) {
             parsec_matrix_block_cyclic_init(&b, PARSEC_MATRIX_DOUBLE, PARSEC_MATRIX_TILE, 0, 2, 2, 8, 8, 0, 0, 8, 8, v[3], R / v[3], 1, v[4], 0, 0);
             if (!me) { fprintf(out, "%d\n", redistribute_pair_num_cols(&a.super, &b.super, v[5])); fflush(out); }
             parsec_tiled_matrix_destroy(&a.super); parsec_tiled_matrix_destroy(&b.super);
-        } else if (!strncmp(l, "st ", 3) && k == 6) {
-            parsec_matrix_block_cyclic_t a;
-            parsec_matrix_block_cyclic_init(&a, PARSEC_MATRIX_DOUBLE, PARSEC_MATRIX_TILE, 0, v[0], v[1], 64, 64, 0, 0, 64, 64, 1, 1, 1, 1, 0, 0);
-            if (!me) { fprintf(out, "%d\n", redistribute_region_is_stored(&a.super, v[2], v[3], v[4], v[5])); fflush(out); }
-            parsec_tiled_matrix_destroy(&a.super);
         } else if (!me) { fprintf(out, "<bad case>\n"); fflush(out); }
     }
     if (ctx) parsec_fini(&ctx);
